@@ -3,8 +3,8 @@
 NOTES = ("Contract-based deductive verification of the real code: see DESIGN.md (section 0 = as built). Exit codes of bin/check: 0 held, 1 VIOLATION, 2 undecided (never a violation), 3 checker error. "
          "Common to every check: the contracts carry a default frame (no store into caller-owned arrays / tables / record arrays; a store refutes the obligation, back end FRAME), preconditions of library calls on caller data "
          "(increasing abscissa for np.interp / interp1d(assume_sorted=True)) are obligations (back end PRE), objects under contract are built by the real constructor and their public fields reassigned afterwards, "
-         "the CAS numeric pass evaluates the corners of every parameter box, each obligation has a CPU budget (exhausted = undecided) and the hash seed is pinned. Clauses that depend on floating-point rounding or on an "
-         "optimiser / iterative routine are decided by the bounded run-time layer only and are labelled bounded in the evidence. Seeded changes (4 rounds by independent sub-agents + reverted fixes) and behaviour-preserving "
+         "the CAS numeric pass evaluates the corners of every parameter box, each obligation has a CPU budget (exhausted = undecided) and the hash seed is pinned. pandas label alignment is not modelled (tables are named positional arrays): the bounded family 'container independence' decides it for C09/C11/C12/C15/C16. Clauses that depend on floating-point rounding or on an "
+         "optimiser / iterative routine are decided by the bounded run-time layer only and are labelled bounded in the evidence. Seeded changes (7 rounds by independent sub-agents + reverted fixes) and behaviour-preserving "
          "changes with the checks that report them: seeded/RESULTS.jsonl, seeded_equivalent/RESULTS.jsonl, DESIGN.md 0.6.")
 
 _PENDING = "check not built yet in this round (contracts planned in DESIGN.md section 3); will move to checks when its obligations are discharged"
@@ -50,13 +50,13 @@ CHECKS = {
         "category": "proof",
         "text": "Every array-capable correlation (oil FVF, solution GOR, Spivey compressibility, five water correlations, four Fluid methods) is executed symbolically on an array of symbolic length once per dtype (float64, float32, int64, int32, and with python-int temperature/API/GOR for integer arrays); element j is proved equal to the scalar call's own term by case split over the branch conditions, the measure-zero case p == p_b decided by SMT; result dtype floating, input shape, input not written; int32 overflow obligations under 0<=p<=30000. 45 obligations. Strided views, length 0/1 and float32 rounding: BOUNDED run-time contracts.",
         "note": "numpy dtype/promotion and mask models assumed (NEP 50 weak python scalars); reals for floats, so float32 precision is only covered by the bounded layer.",
-        "technique": "VC generation from the AST over symbolic-length typed arrays; CAS term equality by cases + SMT feasibility of boundary cases; bounded run-time contracts for layout/precision",
+        "technique": "VC generation from the AST over symbolic-length typed arrays; CAS term equality by cases + SMT feasibility of boundary cases; bounded run-time contracts for layout/precision; bounded run-time family 'container independence' for pandas row labels (outside the array model)",
     },
     "C12": {
         "category": "proof",
         "text": "Continuity at p_b (GOR, FVF, density, viscosity) and the inverse pair are CAS identities on the branch terms extracted from oil.py; ordering clauses are sign lemmas over the whole box by interval branch-and-bound: dRs/dp>0, dBo/dp>0 below, exponent of the undersaturated FVF decreasing (cut z0 discovered automatically, its range proved), d mu_live/dR<0 on the proved ranges of mu_dead and Rs, c_o>0, mu>0; branch selection equivalent to p>=p_b for all inputs (SMT); array forms inherit everything through the element-wise obligations. 21 obligations.",
         "note": "chain-rule composition of two sign lemmas for viscosity and 'monotone exponent => monotone FVF' are argued by hand; sympy rewriting re-checked numerically; reals for floats.",
-        "technique": "VC generation from the AST; CAS identities + outward-rounded interval branch-and-bound with automatically discovered cuts; SMT for branch conditions",
+        "technique": "VC generation from the AST; CAS identities + outward-rounded interval branch-and-bound with automatically discovered cuts; SMT for branch conditions; bounded run-time family 'container independence' for pandas row labels (outside the array model)",
     },
     "C13": {
         "category": "proof",
@@ -68,13 +68,13 @@ CHECKS = {
         "category": "proof",
         "text": "Scaling law (M*rf(t/tau), linearity, rescaling), Bounds validation, guess regularisation (finite and half-infinite bounds) and containment / fixed-tau clauses of fit() are SMT/CAS obligations generated from the AST of forecast.py with rf uninterpreted; 10 obligations. The round-trip clause (fitting noise-free data recovers M, tau) cannot be proved (optimiser convergence) and is a BOUNDED run-time contract, reported separately.",
         "note": "Assumed contract of scipy.optimize.curve_fit (ValueError unless lo<=p0<=hi; result within bounds); reals for floats; 'malformed' = wrong length or lo>=hi.",
-        "technique": "VC generation from the AST, path enumeration, SMT (z3) + CAS; bounded run-time contract for the round trip",
+        "technique": "VC generation from the AST, path enumeration over fresh and previously fitted forecasters, SMT (z3) + CAS + frame (reads) clause; bounded run-time contract for the round trip",
     },
     "C06": {
         "category": "other",
         "text": "z_factor_DAK's postcondition is derived from the root finder's contract: the closure handed to brentq is extracted from the AST and shown to be the DAK residual of the returned Z (CAS), to change sign across the code's bracket on the whole rectangle and to be strictly monotone (interval branch-and-bound), with Z_eos(0)=1; all density coefficients but the first equal the published equation. The first coefficient differs (known finding F1), so the level is 'other', not proof. Hall-Yarbrough agreement is a BOUNDED clause.",
         "note": "brentq idealised (exact root when signs differ, tolerances <= 1e-10 demanded); 'strictly increasing continuous => unique continuous root' is a textbook lemma not re-proved; sympy rewriting re-checked at 50 digits.",
-        "technique": "VC generation from the AST; CAS identities + outward-rounded interval branch-and-bound; bounded run-time contract for Hall-Yarbrough",
+        "technique": "VC generation from the AST; CAS identities + outward-rounded interval branch-and-bound; Hall-Yarbrough: while loop summarised by its last iteration (partial correctness), CAS identities against the published equation as a sufficient condition, termination and agreement by a bounded run-time contract",
     },
     "C07": {
         "category": "other",
@@ -98,19 +98,19 @@ CHECKS = {
         "category": "proof",
         "text": "FlowProperties.__init__ (both branches), FlowPropertiesSimple.__init__ and rescale_pseudopressure are executed symbolically on tables of symbolic length (DataFrame and dict): column validation, p_i-outside rejection, frame (caller's table and arrays untouched), factor > 0, m-scaled strictly increasing at nodes and as an interpolant, m_i == m_scaled_func(p_i), alpha-branch bound 1 <= m_i <= 1 + (dm)^2/(4 m_s m_s+1) with equality 1 at nodes, alpha nodes 1/(c mu), every lookup within [min, max] > 0, rescale endpoints 0/1. 15 SMT/CAS/frame obligations with the interp1d contract instantiated at Skolem segments.",
         "note": "Assumed contract of scipy interp1d (segment chord / node value / fill values), min/max model, copy models, monotone-sequence schema instance; table preconditions (increasing pressure, positive columns) instantiated at the indices used.",
-        "technique": "VC generation from the AST over symbolic-length tables; SMT (z3 NRA) with explicit instantiation; frame analysis of heap writes",
+        "technique": "VC generation from the AST over symbolic-length tables; SMT (z3 NRA) with explicit instantiation; frame analysis of heap writes; bounded run-time family 'container independence' for pandas row labels (outside the array model)",
     },
     "C15": {
         "category": "proof",
         "text": "pseudopressure_threephase is executed on arrays of symbolic length; the quadrature call is identified through the cumulative_trapezoid model (argument order included): integrand == documented total mobility, increment == (p_k - p_k-1)(lam_k + lam_k-1)/2, increments positive for positive mobility, linear in the mobility factor; from_table hands exactly this column to the wrapper and m_i == 1 at nodes. 6 obligations (CAS/SMT).",
         "note": "cumulative_trapezoid / interp1d / pandas models assumed; p_i inside the first table interval excluded (1/m infinite at the reference row).",
-        "technique": "VC generation from the AST; CAS identities against the documented formula; SMT lemmas",
+        "technique": "VC generation from the AST; CAS identities against the documented formula; SMT lemmas; bounded run-time family 'container independence' for pandas row labels (outside the array model)",
     },
     "C16": {
         "category": "proof",
         "text": "compressibility_combined_func == S(p+1/2) - S(p-1/2) for the documented storage function, zero for constant tables, proportional to porosity, lambda == documented sum, alpha == lambda/c, and from_table's alpha column == lambda/c of linearly continued interpolants of the table columns (so end rows are derivatives too): 6 CAS obligations with PVT / rel-perm functions uninterpreted.",
         "note": "interp1d model ('extrapolate' = linear continuation); sympy normal forms; docs typo S_g/b_o read as S_g/B_g.",
-        "technique": "VC generation from the AST; CAS identities (sympy) with uninterpreted functions",
+        "technique": "VC generation from the AST; CAS identities (sympy) with uninterpreted functions; bounded run-time family 'container independence' for pandas row labels (outside the array model)",
     },
     "C18": {
         "category": "proof",
